@@ -44,7 +44,7 @@ def behaviours(rep, prop, tier, sd):
         rep.machinery_failure("TLC failed on MC_Workspace: " + str(mc.error))
     from . import ws
 
-    num = 700 if tier == "quick" else 12000
+    num = (700 if tier == "quick" else 12000) if prop != "C05" else (300 if tier == "quick" else 4000)
     behs = []
     # uniformly random histories, and the focused family of the property (runs + orphans for C16, runs + cleaning for C19)
     for cfgname, share in (("MC_Workspace_sim.cfg", 0.5), ("MC_Workspace_simruns.cfg" if prop in ("C16", "C05") else "MC_Workspace_simclean.cfg", 0.5)):
@@ -65,7 +65,10 @@ def behaviours(rep, prop, tier, sd):
             continue
         act = d["action"].get("a")
         what = d["what"]
-        if prop == "C16":
+        if prop == "C05":
+            # a job whose success marker exists is never run again by a later experiment: the markers of the job directories
+            mine = act == "run" and "'dirs'" in what
+        elif prop == "C16":
             mine = act == "run" or (act == "orphans" and "reports" in what) or any(f"'{f}'" in what for f in C16_FIELDS)
         else:
             mine = act in ("clean", "orphans", "running")
